@@ -37,6 +37,7 @@ def run(chk):
     r4(chk, prog, m)
     r5(chk, prog, m)
     r6(chk, prog, m)
+    r7_indent(chk, prog, m)
     from . import c01
     ft = prog.fn("json_tokener_parse_ex")
     chk.require(ft is not None, "json_tokener_parse_ex not found")
@@ -750,3 +751,77 @@ def r6(chk, prog, m):
     if und:
         chk.undecided(rid, f.name, "%d evaluations" % und, f.entry.term.locstr(), "the emitted text could not be reconstructed")
     chk.floor(rid, n, 500, "(conversion text, flags) evaluations")
+
+
+# ---------------------------------------------------------------------------
+# R7 indentation is white space, level by level
+def r7_indent(chk, prog, m):
+    from ..strpe import StrPE
+    rid = "C02.R7"
+    chk.rule(rid, "the indentation helper, evaluated for nesting levels 0..70 with and without the tab option: it appends exactly "
+                  "`level` tabs or 2 * `level` blanks - taken from a fill or from a constant run that is long enough - and nothing "
+                  "else (the pretty flags change only insignificant white space at every depth)")
+    f = m.functions.get("indent")
+    if f is None or f.is_decl:
+        chk.undecided(rid, "indent", "indentation", "json_object.c:1:1", "no function named indent (the helper may have been inlined by hand)")
+        return
+    chk.touched(f)
+    flags = m.enumerators(None)
+    PRETTY, TAB = 1 << 1, 1 << 3
+
+    class IndPE(StrPE):
+        def should_inline(self, g, instr):
+            return g.internal
+
+        def call_model(self, state, frame, i, args):
+            nm = i.callee or ""
+            if nm == "printbuf_memset" and len(args) >= 4 and pe.is_const(args[2]) and pe.is_const(args[3]):
+                self.out += bytes([args[2][1] % 256]) * max(0, args[3][1])
+                return pe.C(0)
+            if nm == "printbuf_memappend" and len(args) >= 3 and pe.is_const(args[2]) and args[1][0] == "ptr":
+                k = args[2][1]
+                data = []
+                for j in range(max(0, k)):
+                    b = self._byte(state, args[1], j)
+                    if b is None:
+                        # past the end of the constant (or not a constant at all)
+                        if args[1][1].startswith("@"):
+                            g = self.global_bytes(args[1][1][1:])
+                            self.overread = (args[1][1][1:].split("\0")[0], k, len(g) if g is not None else None)
+                        else:
+                            self.unknown = True
+                        return pe.C(0)
+                    data.append(b)
+                self.out += bytes(data)
+                return pe.C(k)
+            return self.libc_string_model(state, frame, i, args)
+    bad = und = None
+    n = 0
+    for fl, unit in ((PRETTY, b"  "), (PRETTY | TAB, b"\t")):
+        for level in list(range(0, 6)) + [31, 32, 33, 40, 63, 64, 65, 70]:
+            h = IndPE(prog, max_leaves=20, max_steps=20000)
+            h.loop_widen = 1000
+            h.max_visits = 200
+            h.out, h.overread, h.unknown = b"", None, False
+            try:
+                h.run(f, [("ptr", "pb", ()), pe.C(level), pe.C(fl)], pe.State())
+            except Exception as e:
+                und = und or "level %d: %s" % (level, e)
+                continue
+            n += 1
+            if h.overread:
+                bad = bad or ("at nesting level %d (%s) the helper appends %d bytes from the constant %s, which holds only %s: the bytes past "
+                              "its end (its terminating NUL and whatever follows) are written into the text" %
+                              (level, "tabs" if fl & TAB else "blanks", h.overread[1], h.overread[0], h.overread[2]))
+            elif h.unknown:
+                und = und or "level %d: the appended bytes are not concrete" % level
+            elif h.out != unit * level and bad is None:
+                bad = "at nesting level %d (%s) the helper appends %r..., expected %d x %r" % (
+                    level, "tabs" if fl & TAB else "blanks", h.out[:12], level, unit)
+    if bad:
+        chk.refuted(rid, f.name, "indentation", f.entry.term.locstr(), bad)
+    elif und:
+        chk.undecided(rid, f.name, "indentation", f.entry.term.locstr(), und)
+    else:
+        chk.proven(rid, f.name, "indentation", f.entry.term.locstr(), "exact white space on %d (level, option) pairs" % n)
+    chk.floor(rid, n, 20, "(level, option) pairs")
